@@ -1,2 +1,24 @@
-//! Test infrastructure for the validation-engine properties (see /verif/notes/rpkitest.md).
-pub fn fake_rsync_special(_name: &str, _args: &[String]) -> Option<i32> { None }
+//! Test infrastructure for the validation-engine properties: abstract RPKI
+//! universes materialised as real signed objects, a fake rsync, and a runner
+//! for the real `routinator::engine::Engine`. See `/verif/notes/rpkitest.md`.
+
+pub mod keys;
+pub mod spec;
+pub mod build;
+pub mod rsync;
+pub mod store;
+pub mod runner;
+pub mod truth;
+pub mod gen;
+pub mod scenario;
+pub mod model;
+
+pub use build::{Builder, ServerTree};
+pub use runner::{Bench, EngineOpts, Policy, RunOutput, RunStatus};
+pub use spec::*;
+
+/// The `special` hook for `rvcore::main_with`: makes the harness binary act
+/// as the fake rsync.
+pub fn fake_rsync_special(name: &str, args: &[String]) -> Option<i32> {
+    rsync::special(name, args)
+}
